@@ -409,7 +409,7 @@ def row_direct(tier, seed):
     from bounded import c14
     row = fx.new_row('cell_type_mapper.type_assignment.election_runner.run_type_assignment_on_h5ad', 'seeded-random',
                      "world of 6 leaves / 30 genes / 20 query cells; n_processors {1,2,3} x chunk_size {3,7,50} x results buffer "
-                     "directory {none, given}", [CL_DIRECT])
+                     "directory {none, given}; then the query re-written twice at one path and mapped again", [CL_DIRECT])
     try:
         with fx.scratch() as d:
             world = c14.make_world(str(d), int(seed) + 31)
@@ -440,6 +440,37 @@ def row_direct(tier, seed):
                                            f"{len(got)} records; order {got[:8]}... expected {ids[:8]}...")
                         elif any(lv not in r or 'assignment' not in r[lv] for r in res for lv in levels):
                             fx.add_failure(row, CL_DIRECT, 'ensures', args, 'a record lacks a level')
+            # a history: the query file is re-written AT THE SAME PATH with its cells in another order and
+            # mapped again in this process - the records follow the file as it is now
+            import numpy as np
+            X = np.asarray(world.query_X)
+            genes = list(world.query_gene_names)
+            original = world.query_path
+            try:
+                for step, perm in enumerate([list(range(len(ids)))[::-1], list(range(1, len(ids))) + [0]]):
+                    new_ids = [ids[i] for i in perm]
+                    world.query_path = fx.write_query(world, X[perm], new_ids, genes, encoding='csr', reuse_path=True)
+                    args = dict(history=f'query re-written at the same path, step {step}', n_processors=2, chunk_size=7)
+                    row['cases'] += 1
+                    scr = tempfile.mkdtemp(dir=str(d), prefix='scratch_')
+                    try:
+                        with fx.quiet():
+                            res = c14.run_election_direct(world, 2, scr, results_output_path=None, chunk_size=7,
+                                                          bootstrap_iteration=3)
+                    except Exception as e:   # noqa
+                        if not fx.escaped_from_package(e):
+                            raise
+                        row['accepted'] += 1
+                        fx.add_failure(row, CL_DIRECT, 'raises', args, fx.package_error_text(e, 300))
+                        continue
+                    row['accepted'] += 1
+                    fx.note_case(row, args)
+                    got = [r.get('cell_id') for r in res]
+                    if got != new_ids:
+                        fx.add_failure(row, CL_DIRECT, 'ensures', args,
+                                       f"order {got[:6]}... but the file now lists {new_ids[:6]}...")
+            finally:
+                world.query_path = original
     except BaseException:   # noqa
         fx.add_error(row, traceback.format_exc()[-1500:])
     return fx.finish_row(row)
